@@ -250,6 +250,12 @@ class PathEnum:
             if func.cls is not None and not func.is_staticmethod:
                 params = params[1:]
             body = func.node.body
+        elif len(func) == 3 and func[0] == 'localdef':
+            _, node, dfr = func
+            nfr = _LambdaFrame(dfr, q.nf, fr.depth + 1, call)
+            q.nf += 1
+            params = [x.arg for x in node.args.args]
+            body = node.body
         else:   # lambda: (node, defining frame)
             lam, dfr = func
             nfr = _LambdaFrame(dfr, q.nf, fr.depth + 1, call)
@@ -363,6 +369,13 @@ class PathEnum:
             cv = self.const_of(value.test, p, fr)
             if cv is not _UNKNOWN:
                 return self.value_paths(value.body if cv else value.orelse, p, fr)
+            outs = []
+            for q, t in self.cond_paths(value.test, p, fr):
+                if t is None:
+                    outs.append((q, _UNKNOWN, fr))
+                else:
+                    outs += self.value_paths(value.body if t else value.orelse, q, fr)
+            return outs
         if isinstance(value, ast.Call):
             inl = self._inline(value, p, fr)
             if inl is not None:
@@ -509,8 +522,11 @@ class PathEnum:
             q = p.fork(); q.exit = 'break'; return [q]
         if isinstance(s, ast.Continue):
             q = p.fork(); q.exit = 'continue'; return [q]
-        if isinstance(s, (ast.Pass, ast.Import, ast.ImportFrom, ast.Global, ast.Nonlocal,
-                          ast.FunctionDef, ast.AsyncFunctionDef, ast.ClassDef)):
+        if isinstance(s, (ast.FunctionDef, ast.AsyncFunctionDef)):
+            q = p.fork()
+            q.fn[(fr.fid, s.name)] = ('localdef', s, fr)
+            return [q]
+        if isinstance(s, (ast.Pass, ast.Import, ast.ImportFrom, ast.Global, ast.Nonlocal, ast.ClassDef)):
             return [p]
         if isinstance(s, ast.If):
             outs = []
@@ -693,6 +709,8 @@ class SelfResolver:
             return (ref[1], None, {})
         if kind == 'lambda':
             return ((ref[1], ref[2]), ref[2].cls, {})
+        if kind == 'localdef':
+            return (('localdef', ref[1], ref[2]), ref[2].cls, {})
         if kind == 'partial':
             inner = self._from_ref(ref[1])
             if inner is None:
